@@ -530,8 +530,19 @@ func c11Audit(r *verifkit.Run, src *c11Source, srcF, tgt *chstore.MessageDBFacto
 			if err != nil || serr != nil {
 				return "audit-error:retention", w(map[string]any{"err": fmt.Sprint(err, serr)})
 			}
-			if tr != sr {
-				return "restored-retention-differs", w(map[string]any{"source": fmt.Sprint(sr), "restored": fmt.Sprint(tr)})
+			// The export clamps a retained log end that lies above the exported HW
+			// (it may cover the unexported uncommitted suffix) to
+			// max(HW, LocalRetentionThroughSeq); everything else travels unchanged.
+			wr := sr
+			if wr.RetainedMaxSeq > c.hw {
+				wr.RetainedMaxSeq = c.hw
+				if wr.LocalRetentionThroughSeq > wr.RetainedMaxSeq {
+					wr.RetainedMaxSeq = wr.LocalRetentionThroughSeq
+				}
+				r.Count("audit.retention_retained_max_clamped", 1)
+			}
+			if tr != wr {
+				return "restored-retention-differs", w(map[string]any{"source": fmt.Sprint(sr), "expected": fmt.Sprint(wr), "restored": fmt.Sprint(tr)})
 			}
 			// exact proposals
 			if tp, ok := st.(chstore.ExactProposalLookup); ok && c.exact {
